@@ -76,6 +76,8 @@ def tr(e, env, mode):
         if isinstance(f, ast.Name) and f.id == 'float' and len(e.args) == 1:
             return tr(e.args[0], env, mode)
         if isinstance(f, ast.Attribute) and isinstance(f.value, ast.Name) and f.value.id == 'np' and f.attr in NP_FUNS and len(e.args) == 1 and not e.keywords:
+            if f.attr == 'log10' and mode == 'pow10':
+                return '(log10 %s)' % tr(e.args[0], env, mode)
             if mode != 'ops':
                 raise Untranslatable('call ' + ast.unparse(e))
             return '(%s %s)' % (NP_FUNS[f.attr], tr(e.args[0], env, mode))
@@ -144,6 +146,46 @@ def main():
         r = single_return(fn)
         return tr(r, env, 'pow10'), ast.unparse(r)
     attempt('src_logicle', '(T M W p s : α)', logicle)
+
+    # ---- plot._LogicleTransform.__init__: the equation solved for p and the bracket of the fallback solver ----
+    def lt_init():
+        return find(find(p, ast.ClassDef, '_LogicleTransform'), ast.FunctionDef, '__init__')
+
+    def w_f():
+        fn = find(lt_init(), ast.FunctionDef, 'W_f')
+        if [a.arg for a in fn.args.args] != ['p']:
+            raise Untranslatable('W_f parameters ' + ast.unparse(fn.args))
+        r = single_return(fn)
+        return tr(r, {'p': 'p'}, 'pow10'), ast.unparse(r)
+    attempt('src_W_f', '(p : α)', w_f)
+
+    def w_root():
+        fn = find(lt_init(), ast.FunctionDef, 'W_root')
+        r = single_return(fn)
+        if [a.arg for a in fn.args.args] != ['p', 'W_target'] or ast.unparse(r) != 'W_f(p) - W_target':
+            raise Untranslatable('W_root is %s -> %s' % (ast.unparse(fn.args), ast.unparse(r)))
+        solves = [n for n in ast.walk(lt_init()) if isinstance(n, ast.Call) and ast.unparse(n.func) in ('scipy.optimize.root', 'scipy.optimize.brentq')]
+        for c in solves:
+            kw = {k.arg: ast.unparse(k.value) for k in c.keywords}
+            if not c.args or ast.unparse(c.args[0]) != 'W_root' or kw.get('args') not in ('W', '(W,)'):
+                raise Untranslatable('solver call ' + ast.unparse(c))
+        if sorted(ast.unparse(c.func) for c in solves) != ['scipy.optimize.brentq', 'scipy.optimize.root']:
+            raise Untranslatable('solver calls: %s' % [ast.unparse(c.func) for c in solves])
+        stores = [ast.unparse(n.value) for n in ast.walk(lt_init()) if isinstance(n, ast.Assign) and ast.unparse(n.targets[0]) == 'self._p']
+        if len(stores) != 2 or stores[0] != 'sol.x[0]' or not stores[1].startswith('scipy.optimize.brentq('):
+            raise Untranslatable('assignments to self._p: %s' % stores)
+        return 'true', 'W_root(p, W_target) = W_f(p) - W_target, solved for W_target = W by scipy.optimize.root, else by scipy.optimize.brentq; self._p is the root'
+    attempt('src_p_solves_W_f_eq_W', '', w_root, 'Bool')
+
+    def bracket(i):
+        def f():
+            calls = [n for n in ast.walk(lt_init()) if isinstance(n, ast.Call) and ast.unparse(n.func) == 'scipy.optimize.brentq']
+            if len(calls) != 1 or len(calls[0].args) != 3:
+                raise Untranslatable('brentq calls: %s' % [ast.unparse(c) for c in calls])
+            return tr(calls[0].args[1 + i], {'W': 'W'}, 'pow10'), ast.unparse(calls[0])
+        return f
+    attempt('src_p_bracket_lo', '(W : α)', bracket(0))
+    attempt('src_p_bracket_hi', '(W : α)', bracket(1))
 
     # ---- mef.fit_beads_autofluorescence: residual, bead model, standard curve -------------------------
     m = parse('mef.py')
